@@ -73,6 +73,9 @@ type Seg struct {
 	Want []string `json:"want,omitempty"`
 	// for reply segments: well-formed (must not surface as key/mouse)
 	WellFormed bool `json:"well_formed,omitempty"`
+	// Complete: the segment ends where a sequence ends, so no resync is
+	// inserted after it (what follows meets the parser as the reply left it)
+	Complete bool `json:"complete,omitempty"`
 }
 
 type streamCase struct {
@@ -127,7 +130,16 @@ func (g *genState) keyToken(paste bool) (string, string) {
 		typ = evPaste
 	}
 	c := g.tag()
-	switch g.r.Intn(3) {
+	switch g.r.Intn(4) {
+	case 3: // legacy Alt chord: ESC + character (Alt+\ is byte-identical to ST)
+		if paste {
+			return string(c), keyText(c, 0, 0, typ, string(c))
+		}
+		if g.r.Intn(2) == 0 {
+			return "\x1b\\", keyText('\\', 0, 2, 0, "")
+		}
+		l := rune('a' + g.r.Intn(26))
+		return "\x1b" + string(l), keyText(l, 0, 2, 0, "")
 	case 0: // legacy character
 		return string(c), keyText(c, 0, 0, typ, string(c))
 	case 1: // kitty with modifiers
@@ -249,7 +261,7 @@ func (g *genState) reply() (seg Seg) {
 	switch r.Intn(6) {
 	case 0: // repeated
 		n := r.Range(2, 5)
-		return Seg{Kind: "reply", Hex: hex.EncodeToString([]byte(strings.Repeat(s, n))), Desc: fmt.Sprintf("repeated x%d %q", n, s), WellFormed: true}
+		return Seg{Kind: "reply", Hex: hex.EncodeToString([]byte(strings.Repeat(s, n))), Desc: fmt.Sprintf("repeated x%d %q", n, s), WellFormed: true, Complete: true}
 	case 1: // truncated
 		cut := r.Range(1, len(s)-1)
 		return Seg{Kind: "reply", Hex: hex.EncodeToString([]byte(s[:cut])), Desc: fmt.Sprintf("truncated %q", s[:cut])}
@@ -257,7 +269,7 @@ func (g *genState) reply() (seg Seg) {
 		m := strings.NewReplacer(";", "", "1", "", "=", ";").Replace(s)
 		return Seg{Kind: "reply", Hex: hex.EncodeToString([]byte(m)), Desc: fmt.Sprintf("malformed %q", m)}
 	default:
-		return Seg{Kind: "reply", Hex: hex.EncodeToString([]byte(s)), Desc: fmt.Sprintf("unsolicited %q", s), WellFormed: true}
+		return Seg{Kind: "reply", Hex: hex.EncodeToString([]byte(s)), Desc: fmt.Sprintf("unsolicited %q", s), WellFormed: true, Complete: true}
 	}
 }
 
@@ -327,7 +339,7 @@ func wire(sc streamCase) []byte {
 	for i, s := range sc.Segs {
 		b, _ := hex.DecodeString(s.Hex)
 		out = append(out, b...)
-		if s.Kind != "token" {
+		if s.Kind != "token" && !s.Complete {
 			out = append(out, 0x18)
 			out = append(out, "\x1b[201~"...)
 		}
